@@ -50,8 +50,10 @@ def fits(tok, cells, used_bits, used_refs, dag):
             if int(p[2]) > len(n[1]) or int(p[3]) > len(n[2]):
                 return None
             cb, cr = len(n[1]) - int(p[2]), len(n[2]) - int(p[3])
-        elif p[0] == 'sn':
-            return None
+        elif p[0] in ('sn', 'sns'):
+            # snake data: what fits goes into this cell; anything beyond needs ONE free reference slot for the chain of 127-byte cells
+            n = len(bytes.fromhex(p[1].replace('-', ''))) + (1 if p[0] == 'sns' and p[2] == '1' else 0)
+            return n <= (1023 - used_bits) // 8 or used_refs < 4
         else:
             e = S.enc_tok(tok, cells)
             cb, cr = len(e[0]), len(e[1])
@@ -74,8 +76,12 @@ def rand_store(rng, ncells, dag):
     if r < 0.65:
         n = rng.choice([1, 7, 8, 9, 100, 500, 1023])
         return rng.choice([f'b:{"1" * n}', f'by:{"ab" * (n // 8)}' if n >= 8 else 'bit:1'])
-    if r < 0.8:
+    if r < 0.76:
         return rng.choice([f'r:{rng.randrange(ncells)}', f'mr:{rng.randrange(ncells)}', 'mr:-', f'd:{rng.randrange(ncells)}', 'd:-'])
+    if r < 0.8:   # snake data shorter / longer than the room left in this cell (the tail needs a reference slot)
+        n = rng.choice([0, 1, 2, 3, 126, 127, 128, 129, 300])
+        hx_ = (bytes([97 + i % 26 for i in range(n)]).hex() or '-')
+        return rng.choice([f'sn:{hx_}', f'sns:{hx_}:{rng.randrange(2)}'])
     if r < 0.9:
         return f'cell:{rng.randrange(ncells)}'
     k = rng.randrange(ncells)
